@@ -1,2 +1,192 @@
+"""Shared scenario builder for whole-simulation harnesses (C01, C02, C03-sim, C04, C05, C09, C10).
+
+Everything here drives the REAL Simulator / ChargingNetwork / EVSE / EV / Battery / EventQueue objects through their
+public API; symbolic values are event times (SymInt), pilots, battery parameters, requested energies, limits.
+"""
+from datetime import datetime
+
+from symx import env
+from symx.core import le, lt, ge, gt, eq, ne, and_, or_, implies, not_, iff, ite, SymReal, is_sym, sym_max, sym_min
+from symx.run import Job
+
+SIM_FUNCS = [
+    "acnportal.acnsim.simulator.Simulator.__init__/run/_process_event/_update_schedules/_store_actual_charging_rates/_increase_width",
+    "acnportal.acnsim.events.event_queue.EventQueue.*",
+    "acnportal.acnsim.events.event.Event.__lt__ (+Plugin/Unplug/Recompute)",
+    "acnportal.acnsim.network.charging_network.ChargingNetwork.register_evse/add_constraint/plugin/unplug/update_pilots/is_feasible/constraint_current/current_charging_rates/active_evs",
+    "acnportal.acnsim.models.evse.*.set_pilot/_valid_rate/plugin/unplug",
+    "acnportal.acnsim.models.ev.EV.charge",
+    "acnportal.acnsim.models.battery.Battery.charge",
+    "acnportal.acnsim.interface.Interface.*",
+    "acnportal.algorithms.base_algorithm.BaseAlgorithm.run",
+]
+
+SIM_ASSUMPTIONS = [
+    "Python floats modelled as exact reals (IEEE rounding outside the claim)",
+    "np.zeros/np.array in repository modules produce object arrays (same mathematics, no rounding)",
+    "builtins min/max/abs/sum in repository modules evaluated as if-then-else terms",
+    "voltages and period are concrete at simulation level (208/240/120 V; 1, 5 or 60 min) so that obligations stay linear; pilots, energies, capacities, limits, event times are symbolic",
+    "discrete structure (which period an event falls in, event interleavings) is covered by forking inside the stated bounds",
+]
+
+START = datetime(2020, 3, 2, 8, 0, 0)
+
+
+def acn():
+    import acnportal.acnsim as A
+
+    return A
+
+
+class Snap:
+    """per-period snapshots taken through the public override point ChargingNetwork.post_charging_update"""
+
+    def __init__(self):
+        self.rows = []
+
+
+def make_network(cx, stations, constraint=None, snap=None, sim_ref=None, network_cls=None, tolerances=None):
+    """stations: list of (id, kind, voltage, phase); kind in EVSE, DEADBAND, CC, AV5"""
+    A = acn()
+    base = network_cls or A.ChargingNetwork
+
+    class RecNet(base):
+        def post_charging_update(self_inner):
+            super().post_charging_update()
+            if snap is not None and sim_ref:
+                s = sim_ref[0]
+                snap.rows.append(dict(t=s.iteration, nhist=len(s.event_history),
+                                      conn={sid: (self_inner.get_ev(sid).session_id if self_inner.get_ev(sid) is not None else None) for sid in self_inner.station_ids}))
+
+    net = RecNet(**(tolerances or {}))
+    for sid, kind, V, ph in stations:
+        net.register_evse(make_evse(sid, kind), V, ph)
+    if constraint is not None:
+        coeffs, limit = constraint
+        cur = A.Current({stations[i][0]: c for i, c in enumerate(coeffs) if c != 0})
+        net.add_constraint(cur, limit, name="lim")
+    return net
+
+
+def make_evse(sid, kind):
+    A = acn()
+    if kind == "EVSE":
+        return A.EVSE(sid, max_rate=32)
+    if kind == "DEADBAND":
+        return A.DeadbandEVSE(sid, deadband_end=6, max_rate=32)
+    if kind == "CC":
+        return A.FiniteRatesEVSE(sid, [0, 8, 16, 24, 32])
+    if kind == "AV5":
+        return A.FiniteRatesEVSE(sid, [0, 6, 7, 8, 9])
+    raise ValueError(kind)
+
+
+def allowed_pilot(cx, name, kind, positive=False):
+    """a symbolic pilot the EVSE of this kind accepts"""
+    p = cx.real(name, lo=0, hi=32)
+    if kind == "DEADBAND":
+        cx.assume(or_(eq(p, 0), ge(p, 6)))
+    elif kind == "CC":
+        cx.assume(or_(*[eq(p, v) for v in (0, 8, 16, 24, 32)]))
+    elif kind == "AV5":
+        cx.assume(or_(*[eq(p, v) for v in (0, 6, 7, 8, 9)]))
+    if positive:
+        cx.assume(gt(p, 0))
+    return p
+
+
+def make_battery(cx, tag, kind):
+    """symbolic battery; returns (battery, capacity, init_charge, max_power)"""
+    A = acn()
+    if kind == "huge":
+        return A.Battery(100000, 0, 100000), 100000, 0, 100000
+    cap = cx.real("cap_" + tag, lo=0, lo_open=True, hi=200)
+    init = cx.real("init_" + tag, lo=0)
+    cx.assume(le(init, cap))
+    maxp = cx.real("maxp_" + tag, lo=0, lo_open=True, hi=50)
+    if kind == "ideal":
+        return A.Battery(cap, init, maxp), cap, init, maxp
+    if kind == "stepwise":
+        return A.Linear2StageBattery(cap, init, maxp, transition_soc=0.8, charge_calculation="stepwise"), cap, init, maxp
+    raise ValueError(kind)
+
+
+class Scripted:
+    """factory for a scripted BaseAlgorithm: pilots come from a lazily declared symbolic table keyed by (station, period)"""
+
+    def __init__(self, cx, stations, max_recompute=1, length=1, subset=None, positive=False, crash_at=None, order=None,
+                 record=None, table=None):
+        from acnportal.algorithms import BaseAlgorithm
+
+        outer = self
+        self.cx, self.stations = cx, stations
+        self.kinds = {s[0]: s[1] for s in stations}
+        self.table = {} if table is None else table
+        self.calls = [] if record is None else record
+        self.positive = positive
+        self.crash_at = crash_at
+
+        class Algo(BaseAlgorithm):
+            def __init__(self):
+                super().__init__()
+                self.max_recompute = max_recompute
+
+            def schedule(self, active_sessions):
+                t = self.interface.current_time
+                outer.calls.append(dict(t=t, sessions=[s.session_id for s in active_sessions]))
+                if outer.crash_at is not None and bool(outer.crash_at == t):
+                    outer.crash_at = None
+                    raise Boom()
+                ids = [s[0] for s in stations]
+                if subset is not None:
+                    ids = [i for i in ids if i in subset]
+                if order is not None:
+                    ids = [ids[k] for k in order if k < len(ids)]
+                L = length(t) if callable(length) else length
+                if L == 0:
+                    return {}
+                return {sid: [outer.pilot(sid, t + k) for k in range(L)] for sid in ids}
+
+        self.algo = Algo()
+
+    def pilot(self, sid, t):
+        key = (sid, t)
+        if key not in self.table:
+            self.table[key] = allowed_pilot(self.cx, "p_%s_%d" % (sid, t), self.kinds[sid], self.positive)
+        return self.table[key]
+
+
+class Boom(Exception):
+    pass
+
+
+def make_sim(cx, net, algo, evs, recompute_at=(), period=5, store_history=False, signals=None):
+    A = acn()
+    events = [A.PluginEvent(ev.arrival, ev) for ev in evs] + [A.RecomputeEvent(t) for t in recompute_at]
+    q = A.EventQueue(events)
+    return A.Simulator(net, algo, q, START, period=period, verbose=False, store_schedule_history=store_history, signals=signals)
+
+
+def sym_times(cx, n_sessions, H, station_of):
+    """symbolic arrival/departure per session: 0 <= a < d <= H, sessions on the same station do not overlap"""
+    times = []
+    for i in range(n_sessions):
+        a = cx.int("a%d" % i, 0, H - 1)
+        d = cx.int("d%d" % i, 1, H)
+        cx.assume(lt(a, d))
+        times.append((a, d))
+    for i in range(n_sessions):
+        for j in range(i + 1, n_sessions):
+            if station_of[i] == station_of[j]:
+                cx.assume(or_(le(times[i][1], times[j][0]), le(times[j][1], times[i][0])))
+    return times
+
+
+def val(x):
+    return x
+
+
 def jobs_rates_le_pilots(tier):
-    return []
+    from props import C02
+
+    return C02.sim_jobs(tier, only_bounds=True)
